@@ -1,6 +1,207 @@
 import OtelVerif.Common.Line
 import OtelVerif.Model.C01
-/-! driver for C01 (stub) -/
-def main : IO UInt32 := do
-  IO.eprintln "drv_c01: not built yet"
-  return 2
+import OtelVerif.Model.C01Trace
+import OtelVerif.Model.C01Codec
+/-! driver for C01: models `c01-pq` (queue machine with deaths) and `c01-codec` (index byte codecs) -/
+open OtelVerif OtelVerif.Line OtelVerif.C01
+
+namespace OtelVerif.Drivers.C01
+
+def optS : Option Nat → String
+  | some n => toString n
+  | Option.none => "-"
+
+def listS (l : List String) (sep : String) : String := if l.isEmpty then "-" else sep.intercalate l
+
+def showStore (s : Store) : String :=
+  let items := (List.range (s.W + 2)).filterMap (fun i =>
+    match s.items i with
+    | some r => some s!"{i}:{r.id}/{r.size}"
+    | Option.none => Option.none)
+  s!"ri={optS s.ri} wi={optS s.wi} si={optS s.si} di={listS (s.di.map toString) ","} items={listS items ";"}"
+
+def showSize (c : Cfg) : String :=
+  match c.ph with
+  | .live m _ => toString m.size
+  | .dead => "-"
+
+def showRes : Res → String
+  | .none => "none"
+  | .offerOk => "ok"
+  | .offerFull => "full"
+  | .readItem i r => s!"item:{i}:{r.id}/{r.size}"
+  | .readStopped => "stopped"
+  | .readEmpty => "empty"
+  | .doneOk => "ok"
+  | .doneUnknown => "unknown"
+  | .shutOk => "ok"
+
+/-- fire `l`, then continue the pending operation; the incarnation dies right after its `die`-th storage call
+    (die = 0: no death planned).  Returns the configuration and whether the death happened. -/
+def runOp (c : Cfg) (l : Label) (die : Nat) : Cfg × Bool :=
+  let c0 := c.calls
+  let rec go (fuel : Nat) (c : Cfg) : Cfg × Bool :=
+    match fuel with
+    | 0 => (c, false)
+    | fuel + 1 =>
+      if die > 0 ∧ c.calls - c0 ≥ die then (fire c .crash, true)
+      else if c.idle || !c.alive then (c, false)
+      else go fuel (fire c .tick)
+  go 100000 (fire c l)
+
+structure DS where
+  c : Cfg := init {}
+  lastOp : List String := []
+  ts : TState := {}
+  implOut : List (Nat × Nat) := []     -- implementation's outstanding hand-offs: index ↦ id
+  lostAt : Option String := Option.none      -- op at which the first loss was seen on the implementation
+  unreach : Option String := Option.none     -- stored but not reachable from ri/wi/di
+  bad : Option String := Option.none
+  corrupted : Bool := false                  -- the harness deleted a stored item behind the queue's back (extension)
+
+def obsLine (res : String) (c : Cfg) : String :=
+  s!"obs r={res} size={showSize c} {showStore c.st}"
+
+def pqOnOp (s : DS) (toks : List String) : DS × List String :=
+  let s := { s with lastOp := toks }
+  let die := (kvNat toks "die").getD 0
+  let alive := s.c.alive
+  let finish (l : Label) (okRes : Cfg → String) : DS × List String :=
+    let (c', died) := runOp s.c l die
+    ({ s with c := c' }, [obsLine (if died then "died" else okRes c') c'])
+  match toks.head? with
+  | some "start" => if alive then (s, ["obs bad-op"]) else finish .start (fun _ => "ok")
+  | some "exit" => ({ s with c := fire s.c .crash }, [obsLine "ok" (fire s.c .crash)])
+  | some "offer" =>
+    match kvNat toks "id", kvNat toks "sz" with
+    | some id, some sz => if !alive then (s, ["obs bad-op"]) else finish (.offer ⟨id, sz⟩) (fun c => showRes c.res)
+    | _, _ => (s, ["obs bad-op"])
+  | some "read" => if !alive then (s, ["obs bad-op"]) else finish .read (fun c => showRes c.res)
+  | some "done" =>
+    match kvNat toks "i", kv toks "oc" with
+    | some i, some oc =>
+      let oc? : Option Outcome := if oc = "final" ∨ oc = "perm" then some .final else if oc = "shut" then some .shutdownErr else Option.none
+      match oc? with
+      | some o => if !alive then (s, ["obs bad-op"]) else finish (.done i o) (fun c => showRes c.res)
+      | Option.none => (s, ["obs bad-op"])
+    | _, _ => (s, ["obs bad-op"])
+  | some "shutdown" => if !alive then (s, ["obs bad-op"]) else finish .shutdown (fun c => showRes c.res)
+  | some "corrupt" =>
+    match kvNat toks "key" with
+    | some key =>
+      let c' := { s.c with st := { s.c.st with items := upd s.c.st.items key Option.none } }
+      ({ s with c := c', corrupted := true }, [obsLine "ok" c'])
+    | Option.none => (s, ["obs bad-op"])
+  | _ => (s, ["obs bad-op"])
+
+/-- `3:7/2;4:9/1` → [(3,7),(4,9)] -/
+def parseItems (v : String) : Option (List (Nat × Nat)) :=
+  if v = "-" then some [] else
+  (v.splitOn ";").mapM (fun e =>
+    match e.splitOn ":" with
+    | [k, body] =>
+      match k.toNat?, (body.splitOn "/").head?.bind String.toNat? with
+      | some k, some id => some (k, id)
+      | _, _ => Option.none
+    | _ => Option.none)
+
+def parseList (v : String) : Option (List Nat) :=
+  if v = "-" then some [] else (v.splitOn ",").mapM String.toNat?
+
+def optNat (v : String) : Option (Option Nat) :=
+  if v = "-" then some Option.none else v.toNat?.map some
+
+/-- the search oracle: consumes the IMPLEMENTATION's observation of the last op -/
+def pqOnObs (s : DS) (toks : List String) : DS :=
+  match toks with
+  | "obs" :: rest =>
+    let opk := s.lastOp.head?.getD "?"
+    let r := (kv rest "r").getD "?"
+    let died := r = "died"
+    -- events of this op, in order: final (at the call), accept / hand (at the return), then the dump
+    let evs1 : List Ev :=
+      if opk = "done" then
+        match kvNat s.lastOp "i", kv s.lastOp "oc" with
+        | some i, some oc => if oc = "final" ∨ oc = "perm" then (match s.implOut.lookup i with | some id => [Ev.final id] | Option.none => []) else []
+        | _, _ => []
+      else []
+    let implOut1 := if opk = "done" then (match kvNat s.lastOp "i" with | some i => s.implOut.filter (fun p => p.1 != i) | Option.none => s.implOut) else s.implOut
+    let evs2 : List Ev := if opk = "offer" ∧ r = "ok" then (match kvNat s.lastOp "id" with | some id => [Ev.accept id] | Option.none => []) else []
+    let hand : Option (Nat × Nat) :=
+      if opk = "read" ∧ r.startsWith "item:" then
+        match r.splitOn ":" with
+        | [_, i, body] => match i.toNat?, (body.splitOn "/").head?.bind String.toNat? with
+          | some i, some id => some (i, id)
+          | _, _ => Option.none
+        | _ => Option.none
+      else Option.none
+    let evs3 : List Ev := match hand with | some (_, id) => [Ev.hand id] | Option.none => []
+    let implOut2 := match hand with | some p => p :: implOut1 | Option.none => implOut1
+    let implOut3 := if died ∨ opk = "exit" then [] else implOut2
+    -- the dump: ids stored and reachable
+    match (kv rest "ri").bind optNat, (kv rest "wi").bind optNat, (kv rest "di").bind parseList, (kv rest "items").bind parseItems with
+    | some ri, some wi, some di, some items =>
+      let st : Store := { ri := ri, wi := wi }
+      let reach := items.filter (fun p => di.contains p.1 || (st.R ≤ p.1 && p.1 < st.W))
+      let ts0 := (evs1 ++ evs2 ++ evs3).foldl TState.step s.ts
+      let ts1 := ts0.step (.dump (reach.map (·.2)))
+      let tag := opk ++ (if died then "-died" else "") ++ (if opk = "done" then "-" ++ (kv s.lastOp "oc").getD "?" else "")
+      let lostAt := match s.lostAt, ts0.lost, ts1.lost with
+        | Option.none, Option.none, some (id, _) =>
+          some (if items.any (fun p => p.2 == id) then s!"unreachable/{tag} id={id}" else s!"lost/{tag} id={id}")
+        | l, _, _ => l
+      { s with ts := ts1, implOut := implOut3, lostAt := lostAt }
+    | _, _, _, _ => { s with bad := some ("unparsable obs: " ++ " ".intercalate rest) }
+  | _ => s
+
+def pqOnEnd (s : DS) : List String :=
+  if s.corrupted then [] else   -- the property is not claimed when storage contents vanish; differential only
+  let stored := match s.bad, s.lostAt with
+    | some b, _ => s!"prop stored=FAIL sig=C01/harness/unparsable {b}"
+    | Option.none, some l => s!"prop stored=FAIL sig=C01/{l} accepted request neither finalised nor recoverable from storage"
+    | Option.none, Option.none => "prop stored=ok"
+  let handed := match s.ts.accepted.find? (fun id => !(s.ts.handed.contains id)) with
+    | some id => s!"prop handed=FAIL sig=C01/never-handed id={id} accepted request was never handed over although the case ends with restart+drain"
+    | Option.none => "prop handed=ok"
+  [stored, handed]
+
+def pqHandler : Handler DS where
+  init := {}
+  onCase := fun s toks =>
+    let cap := (kvNat toks "cap").getD 0
+    let rs := (kv toks "sizer").getD "req" == "req"
+    { s with c := init { cap := cap, reqSized := rs } }
+  onOp := pqOnOp
+  onObs := pqOnObs
+  onEnd := pqOnEnd
+
+/-! ### codec model -/
+
+def showBytesRes : Except String (List Nat) → String
+  | .ok l => "ok " ++ listS (l.map toString) ","
+  | .error e => "err " ++ e
+
+def codecHandler : Handler Unit where
+  init := ()
+  onOp := fun s toks =>
+    match toks with
+    | ["enc64", v] => match v.toNat? with
+      | some v => (s, [s!"obs {hexBytes (Codec.itemIndexToBytes v)}"])
+      | Option.none => (s, ["obs bad-op"])
+    | ["dec64", h] => match unhexBytes h with
+      | some bs => (s, [match Codec.bytesToItemIndex (if h = "nil" then Option.none else some bs) with
+                        | .ok v => s!"obs ok {v}" | .error e => s!"obs err {e}"])
+      | Option.none => if h = "nil" then (s, [match Codec.bytesToItemIndex Option.none with
+                        | .ok v => s!"obs ok {v}" | .error e => s!"obs err {e}"]) else (s, ["obs bad-op"])
+    | ["encarr", l] => match parseList l with
+      | some l => (s, [s!"obs {hexBytes (Codec.itemIndexArrayToBytes l)}"])
+      | Option.none => (s, ["obs bad-op"])
+    | ["decarr", h] => match unhexBytes h with
+      | some bs => (s, ["obs " ++ showBytesRes (Codec.bytesToItemIndexArray bs)])
+      | Option.none => (s, ["obs bad-op"])
+    | _ => (s, ["obs bad-op"])
+
+end OtelVerif.Drivers.C01
+
+def main : IO UInt32 :=
+  runMulti [("c01-pq", run OtelVerif.Drivers.C01.pqHandler), ("c01-codec", run OtelVerif.Drivers.C01.codecHandler)]
